@@ -88,6 +88,7 @@ func main() {
 	nClock, nGlobal, nExec, nSync := 0, 0, 0, 0
 	var unowned []string
 	nGo, nChan := 0, 0
+	nGoOwned, nChanOwned := 0, 0
 	for i, f := range pkg.Syntax {
 		fn := pkg.CompiledGoFiles[i]
 		if strings.HasSuffix(fn, "_test.go") {
@@ -139,6 +140,32 @@ func main() {
 			if imp.Path.Value == `"time"` {
 				usesTime = true
 			}
+		}
+		where := func(p token.Pos) string {
+			pos := pkg.Fset.Position(p)
+			return filepath.Base(pos.Filename) + ":" + strconv.Itoa(pos.Line)
+		}
+		// communication clauses of select statements must stay send / receive statements: never rewritten
+		type span struct{ lo, hi token.Pos }
+		var comms []span
+		ast.Inspect(f, func(n ast.Node) bool {
+			if sel, ok := n.(*ast.SelectStmt); ok {
+				unowned = append(unowned, where(sel.Pos())+" select")
+				for _, cl := range sel.Body.List {
+					if cc, ok := cl.(*ast.CommClause); ok && cc.Comm != nil {
+						comms = append(comms, span{cc.Comm.Pos(), cc.Comm.End()})
+					}
+				}
+			}
+			return true
+		})
+		inComm := func(n ast.Node) bool {
+			for _, sp := range comms {
+				if n.Pos() >= sp.lo && n.End() <= sp.hi {
+					return true
+				}
+			}
+			return false
 		}
 		// which identifiers are write accesses to globals
 		writeIdents := map[*ast.Ident]bool{}
@@ -214,6 +241,14 @@ func main() {
 		}, func(c *astutil.Cursor) bool {
 			switch n := c.Node().(type) {
 			case *ast.CallExpr:
+				if id, ok := n.Fun.(*ast.Ident); ok && id.Name == "close" && len(n.Args) == 1 {
+					if _, isBuiltin := pkg.TypesInfo.Uses[id].(*types.Builtin); isBuiltin {
+						n.Fun = ast.NewIdent("verifClose")
+						changed = true
+						nChanOwned++
+						return true
+					}
+				}
 				// 5. synchronisation seam: sync.Mutex / RWMutex / Once / Map operations go through hooks,
 				// so that the cooperative scheduler sees them (blocking, happens-before edges)
 				sel, ok := n.Fun.(*ast.SelectorExpr)
@@ -252,7 +287,38 @@ func main() {
 					changed = true
 					nSync++
 				case tn == "WaitGroup" || tn == "Cond":
-					unowned = append(unowned, rel(n.Pos())+" sync."+tn+"."+m)
+					unowned = append(unowned, where(n.Pos())+" sync."+tn+"."+m)
+				}
+			case *ast.GoStmt:
+				// 6. goroutine / channel seam: goroutines started by the package become scheduler threads,
+				// channel operations become scheduling points (buffered channels; select is not owned)
+				if fl, ok := n.Call.Fun.(*ast.FuncLit); ok && len(n.Call.Args) == 0 {
+					c.Replace(&ast.ExprStmt{X: &ast.CallExpr{Fun: ast.NewIdent("verifGo"), Args: []ast.Expr{fl}}})
+					changed = true
+					nGoOwned++
+				} else {
+					unowned = append(unowned, where(n.Pos())+" go statement with arguments")
+				}
+			case *ast.SendStmt:
+				if !inComm(n) {
+					c.Replace(&ast.ExprStmt{X: &ast.CallExpr{Fun: ast.NewIdent("verifSend"), Args: []ast.Expr{n.Chan, n.Value}}})
+					changed = true
+					nChanOwned++
+				}
+			case *ast.UnaryExpr:
+				if n.Op == token.ARROW && !inComm(n) {
+					c.Replace(&ast.CallExpr{Fun: ast.NewIdent("verifRecv"), Args: []ast.Expr{n.X}})
+					changed = true
+					nChanOwned++
+				}
+			case *ast.AssignStmt:
+				// v, ok := <-ch
+				if len(n.Lhs) == 2 && len(n.Rhs) == 1 {
+					if call, ok := n.Rhs[0].(*ast.CallExpr); ok {
+						if id, ok := call.Fun.(*ast.Ident); ok && id.Name == "verifRecv" {
+							id.Name = "verifRecv2"
+						}
+					}
 				}
 			case *ast.Ident:
 				// 3. shared-state access points
@@ -281,6 +347,9 @@ func main() {
 				tv, ok := pkg.TypesInfo.Types[n.X]
 				if !ok {
 					return true
+				}
+				if _, isChan := tv.Type.Underlying().(*types.Chan); isChan {
+					unowned = append(unowned, where(n.Pos())+" range over channel")
 				}
 				mt, ok := tv.Type.Underlying().(*types.Map)
 				if !ok {
@@ -387,11 +456,11 @@ func main() {
 	rep, _ := json.MarshalIndent(map[string]any{
 		"map_range_sites": sites, "map_range_owned": owned, "map_range_total": len(sites),
 		"clock_calls": nClock, "global_accesses": nGlobal, "globals": globalNames, "exec_imports": nExec,
-		"sync_operations": nSync, "sync_operations_not_owned": unowned, "go_statements": nGo, "channel_operations": nChan,
+		"sync_operations": nSync, "sync_operations_not_owned": unowned, "go_statements": nGo, "channel_operations": nChan, "go_statements_owned": nGoOwned, "channel_operations_owned": nChanOwned,
 	}, "", " ")
 	os.WriteFile(filepath.Join(*out, "report.json"), rep, 0o644)
-	fmt.Printf("overlay: %d files, %d/%d map-range sites owned, %d clock calls, %d accesses to %d package-level variables, %d os/exec imports, %d sync operations (%d not owned), %d go statements, %d channel operations\n",
-		len(replace), owned, len(sites), nClock, nGlobal, len(globalNames), nExec, nSync, len(unowned), nGo, nChan)
+	fmt.Printf("overlay: %d files, %d/%d map-range sites owned, %d clock calls, %d accesses to %d package-level variables, %d os/exec imports, %d sync operations, %d/%d go statements and %d/%d channel operations owned, %d constructs not owned\n",
+		len(replace), owned, len(sites), nClock, nGlobal, len(globalNames), nExec, nSync, nGoOwned, nGo, nChanOwned, nChan, len(unowned))
 }
 
 func fatal(f string, a ...any) {
@@ -523,6 +592,7 @@ const hooksSrc = `//go:build verif
 package in_toto
 
 import (
+	"reflect"
 	"sort"
 	"sync"
 	"time"
@@ -621,17 +691,60 @@ func verifMapOp(m *sync.Map) *sync.Map {
 
 var _ sync.Mutex
 
-func verifRead[T any](p *T, name string) *T {
-	if VerifAccessHook != nil {
-		VerifAccessHook(name, false)
+// VerifGoHook starts f as a thread of the harness scheduler (returns false: start a plain goroutine).
+var VerifGoHook func(f func()) bool
+
+// VerifChanHook performs a channel operation under the scheduler: try is a non-blocking attempt,
+// length/capacity describe the channel (buffered channels only).
+var VerifChanHook func(op string, ch any, length func() int, capacity int, try func() bool) bool
+
+func verifGo(f func()) {
+	if VerifGoHook == nil || !VerifGoHook(f) {
+		go f()
 	}
-	return p
 }
 
-func verifWrite[T any](p *T, name string) *T {
-	if VerifAccessHook != nil {
-		VerifAccessHook(name, true)
+func verifSend[T any](ch chan<- T, v T) {
+	if VerifChanHook != nil {
+		// reflection works on the channel whatever direction its static type has
+		rv := reflect.ValueOf(ch)
+		if VerifChanHook("send", rv.Pointer(), rv.Len, rv.Cap(), func() bool { return rv.TrySend(reflect.ValueOf(&v).Elem()) }) {
+			return
+		}
 	}
-	return p
+	ch <- v
+}
+
+func verifRecv2[T any](ch <-chan T) (v T, ok bool) {
+	if VerifChanHook != nil {
+		rv := reflect.ValueOf(ch)
+		if VerifChanHook("recv", rv.Pointer(), rv.Len, rv.Cap(), func() bool {
+			x, got := rv.TryRecv()
+			if !x.IsValid() {
+				return false // would block
+			}
+			v, ok = x.Interface().(T), got
+			return true
+		}) {
+			return v, ok
+		}
+	}
+	v, ok = <-ch
+	return
+}
+
+func verifRecv[T any](ch <-chan T) T {
+	v, _ := verifRecv2(ch)
+	return v
+}
+
+func verifClose[T any](ch chan<- T) {
+	if VerifChanHook != nil {
+		rv := reflect.ValueOf(ch)
+		if VerifChanHook("close", rv.Pointer(), rv.Len, rv.Cap(), func() bool { close(ch); return true }) {
+			return
+		}
+	}
+	close(ch)
 }
 `
